@@ -71,6 +71,8 @@ type World struct {
 	NSteps     int
 	HistID     string
 	LastErr    string
+	LastEvents string
+	Profile    string
 }
 
 func mkAddr(class byte, id int64) []byte {
